@@ -609,7 +609,7 @@ fn canonical(cons: &str, o: &Ops) -> Vec<u8> {
 
 fn lengths(lmax: usize, big: bool) -> Vec<usize> {
     let mut v: Vec<usize> = (0..=lmax).collect();
-    if big { v.extend_from_slice(&[1024, 4096, 65537]); }
+    if big { v.extend_from_slice(&[1024, 4079, 4095, 4096, 4097, 4112, 8191, 8192, 8193, 65535, 65536, 65537]); }
     v
 }
 
@@ -706,7 +706,11 @@ pub fn cmd_tamper(args: &[String]) {
         }
         let hdr = if cons == "seal" { PKB } else { 0 };
         let detached = openv == "open_detached" || openv == "obj_parts";
-        for len in 0..=lmax {
+        // every length up to lmax, then lengths around the 4 KiB / 8 KiB / 64 KiB marks with a thinned fault family
+        // (first, middle and last position of each component): chunked or paged code paths start there
+        let big: [usize; 12] = [4079, 4080, 4095, 4096, 4097, 4111, 4112, 4113, 8191, 8192, 8193, 65537];
+        for len in (0..=lmax).chain(big.iter().copied()) {
+            let thin = len > lmax;
             let ops = mk_ops(&mut rng, len);
             idx += 1;
             if idx % stride != first { continue; }
@@ -716,6 +720,7 @@ pub fn cmd_tamper(args: &[String]) {
             let mut fam: Vec<(Ops, Vec<u8>, String)> = vec![];
             let flip_range = |lo: usize, hi: usize, fam: &mut Vec<(Ops, Vec<u8>, String)>, what: &str| {
                 for byte in lo..hi { for bit in 0..8 {
+                    if thin && !((byte == lo || byte + 1 == hi || byte == (lo + hi) / 2) && bit == (byte % 8)) { continue; }
                     let mut c = w.clone();
                     c[byte] ^= 1 << bit;
                     fam.push((ops.clone(), c, format!("{} byte {} bit {}", what, byte, bit)));
@@ -727,17 +732,19 @@ pub fn cmd_tamper(args: &[String]) {
                 "flip_body" => flip_range(hdr + MAC, w.len(), &mut fam, "body"),
                 "flip_epk" => flip_range(0, PKB, &mut fam, "ephemeral public key"),
                 "flip_nonce" => for byte in 0..24 { for bit in 0..8 {
+                    if thin && !(byte % 11 == 0 && bit == 3) { continue; }
                     let mut o2 = ops.clone(); o2.nonce[byte] ^= 1 << bit;
                     fam.push((o2, w.clone(), format!("nonce byte {} bit {}", byte, bit)));
                 } },
                 "flip_key" => for byte in 0..32 { for bit in 0..8 {
+                    if thin && !(byte % 13 == 0 && bit == 5) { continue; }
                     let mut o2 = ops.clone();
                     // the symmetric key: the secretbox key, or the precomputed key of a box
                     o2.key[byte] ^= 1 << bit; o2.pre_r[byte] ^= 1 << bit;
                     fam.push((o2, w.clone(), format!("key byte {} bit {}", byte, bit)));
                 } },
-                "truncate" => for n in 1..=w.len() { fam.push((ops.clone(), w[..w.len() - n].to_vec(), format!("truncated by {}", n))); },
-                "extend" => for n in 1..=40usize { let mut c = w.clone(); c.extend(rng.bytes(n)); fam.push((ops.clone(), c, format!("extended by {}", n))); },
+                "truncate" => for n in 1..=w.len() { if thin && ![1usize, 15, 16, 17, w.len() / 2, w.len() - MAC, w.len()].contains(&n) { continue; } fam.push((ops.clone(), w[..w.len() - n].to_vec(), format!("truncated by {}", n))); },
+                "extend" => for n in 1..=40usize { if thin && n != 1 && n != 16 { continue; } let mut c = w.clone(); c.extend(rng.bytes(n)); fam.push((ops.clone(), c, format!("extended by {}", n))); },
                 other => { rep.fail("HARNESS: unknown fault kind", json!(other)); }
             }
             for (o2, c, how) in fam.iter() {
